@@ -20,6 +20,10 @@ import (
 func execExtra(f []string) (string, bool) { return syncExec(f) }
 
 type genCtx struct {
+	// sweepKind: the first forged block of this history is an otherwise perfect, publisher-signed block whose
+	// single transaction has exactly this defect (every kind of badKinds gets its turn across the histories of
+	// a run), so that each hard rule is met alone on the block path, not only mixed with other defects
+	sweepKind    string
 	r            *Rng
 	emit         func(string)
 	prec         uint64 // droplet multiple for valid amounts (10^(6-prec))
@@ -324,6 +328,18 @@ func (g *genCtx) makeTxn(n *node, kind string) (coin.Transaction, bool) {
 		if spec.outs[0].Coins > 2*unit {
 			spec.outs[0].Coins -= 2 * unit
 		}
+	case "coins-wrap-mid", "coins-wrap-last":
+		// two extra outputs of 2^63 droplets each: the 64-bit total wraps back to the honest total, so only a
+		// check of EVERY partial sum refuses it (C01: no transaction may create coins through wrap-around)
+		extra := []coin.TransactionOutput{
+			{Address: keys[2].addr, Coins: 1 << 63, Hours: 0},
+			{Address: keys[3].addr, Coins: 1 << 63, Hours: 0},
+		}
+		if kind == "coins-wrap-mid" {
+			spec.outs = append(extra, spec.outs...)
+		} else {
+			spec.outs = append(spec.outs, extra...)
+		}
 	case "length":
 		spec.post = func(t *coin.Transaction) { t.Length += uint32(1 + r.Intn(3)) }
 	case "type":
@@ -351,7 +367,7 @@ func (g *genCtx) makeTxn(n *node, kind string) (coin.Transaction, bool) {
 }
 
 var badKinds = []string{"nofee", "lowfee", "hours+", "hours+1", "coins+", "coins-", "coins+1", "coins-1", "zerocoin", "dupout", "unknown-in", "dup-in",
-	"wrong-signer", "badsig", "unsigned", "precision", "outhours-ovf", "length", "type", "innerhash", "null-addr", "respend"}
+	"wrong-signer", "badsig", "unsigned", "precision", "outhours-ovf", "coins-wrap-mid", "coins-wrap-last", "length", "type", "innerhash", "null-addr", "respend"}
 
 func txHex(t *coin.Transaction) string {
 	b, err := t.Serialize()
@@ -418,7 +434,7 @@ func ledgerGen(r *Rng, tier string, emit func(string)) {
 		nHist, _ = strconv.Atoi(v)
 	}
 	for h := 0; h < nHist; h++ {
-		g := &genCtx{r: r, emit: emit}
+		g := &genCtx{r: r, emit: emit, sweepKind: badKinds[h%len(badKinds)]}
 		genHistory(g, profile)
 	}
 }
@@ -725,6 +741,15 @@ func (g *genCtx) forged(P, F *node) {
 		when = hb.Head.Time + 3600*uint64(1+r.Intn(5000)) // hours of accrual between the two blocks
 	}
 	g.futureTime = when
+	if g.sweepKind != "" {
+		kind := g.sweepKind
+		g.sweepKind = ""
+		if t, ok := g.makeTxn(P, kind); ok {
+			sb := forgeBlock(P, coin.Transactions{t}, when, 0, nil, secKey)
+			g.execBoth(&sb)
+			return
+		}
+	}
 	for i := 0; i < n; i++ {
 		kind := ""
 		if r.Chance(30) {
